@@ -6,12 +6,14 @@
 
 mod common;
 mod ops_index;
+mod ops_axis;
 
 use common::*;
 use std::io::{BufRead, Write};
 
 fn dispatch(op: &str, ty: &str, args: &[Arg]) -> String {
     if let Some(r) = ops_index::dispatch(op, ty, args) { return r; }
+    if let Some(r) = ops_axis::dispatch(op, ty, args) { return r; }
     "bad".to_string()
 }
 
